@@ -9,7 +9,10 @@ _common = importlib.util.module_from_spec(_cs)
 _cs.loader.exec_module(_common)
 
 ST = 'src/storage/storages.rs'
-N19 = [('N19', r'((?:self|\w+)(?:\.\w+)+)\.get_unchecked_mut\(', r'vec_get_unchecked_mut(&mut \1, '),
+N19 = [('N10', r'((?:self|\w+)(?:\.\w+)+)\.reserve\(', r'vec_reserve(&mut \1, '),
+       ('N10', r'((?:self|\w+)(?:\.\w+)+)\.capacity\(\)', r'vec_capacity(&\1)'),
+       ('N10', r'((?:self|\w+)(?:\.\w+)+)\.set_len\(', r'vec_set_len(&mut \1, '),
+       ('N19', r'((?:self|\w+)(?:\.\w+)+)\.get_unchecked_mut\(', r'vec_get_unchecked_mut(&mut \1, '),
        ('N19', r'((?:self|\w+)(?:\.\w+)+)\.get_unchecked\(', r'vec_get_unchecked(&\1, ')]
 N8 = [('N8', r"Self::AccessMut<'_>", '&mut T')]
 TRAIT = lambda m, labels: [E('trait.%s.%s' % (m, l), 'inherited postcondition of UnprotectedStorage::%s (%s)' % (m, l), p) for (l, p) in labels]
